@@ -391,7 +391,7 @@ struct Exec {
 				if(sk == S_ROTATED || sk == S_UNROTATED || sk == S_TRANSPOSED || sk == S_REVERSED) probe(P_VIEW_ROTATED);
 				if(sk == S_IDX || sk == S_DIAGONAL || sk == S_PARTITIONED || sk == S_CHUNKED || sk == S_FLATTED) probe(P_VIEW_D_CHANGED);
 			}
-		if(op.kind == O_VASSIGN_VIEW && op.var == 2 && !threw && ET::tracked) probe(P_MOVED_ELEMENTS);
+		if(op.kind == O_VASSIGN_VIEW && (op.var == 2 || op.var == 4) && !threw && ET::tracked) probe(P_MOVED_ELEMENTS);
 		if(!ET::tracked && !threw && (op.kind == O_CTOR_EXT || op.kind == O_REEXTENT || op.kind == O_REEXTENT_MOVE) && eff.elems > 0) probe(P_TRIVIAL_UNWRITTEN_CHECKED);
 		if(op.fk == F_NONE && last_fired_kind_ == op.kind && last_fired_a_ == op.a) probe(P_RETRY_AFTER_FAULT);
 		last_fired_kind_ = fired ? op.kind : -1;
